@@ -705,3 +705,14 @@ def run(ctx):
     # so an advertised order above the one established for that (scheme, noise type) fails this clause (rule of C01)
     from . import c01
     ctx.guard(c01.r01_4)
+
+
+_run_before_r13_4 = run
+
+
+def run(ctx):
+    _run_before_r13_4(ctx)
+    # the expansion is matched by *every* step of a solve, not only by the first step a solver object takes: a step is a
+    # function of its arguments, nothing carried over from earlier steps on the solver, the SDE wrapper or a module (rule of C13)
+    from . import c13
+    ctx.guard(c13.r13_4)
